@@ -31,7 +31,7 @@ class Contour:
         return self.d
 
 
-def make_hy_run(lower, upper, increasing=True):
+def make_hy_run(lower, upper, increasing=True, own_neighbour=False):
     def run(ctx):
         from hypnotoad.core import mesh as M
 
@@ -48,13 +48,15 @@ def make_hy_run(lower, upper, increasing=True):
         r.contours = [mkc("c%d" % a, 2 * ny + 1) for a in range(2 * nx + 1)]
         below = [mkc("below%d" % a, 5) for a in range(2 * nx + 1)]
         above = [mkc("above%d" % a, 5) for a in range(2 * nx + 1)]
+        if own_neighbour:  # the periodic core of a single null: the region is its own lower and upper neighbour
+            below = above = r.contours
         if increasing:
             # post-condition of PsiContour.get_distance (proved below): strictly increasing
             for c_ in r.contours + below + above:
                 for k in range(len(c_.d) - 1):
                     ctx.assume(c_.d[k + 1] > c_.d[k])
         r.connections = dict(lower=1 if lower else None, upper=2 if upper else None, inner=None, outer=None)
-        r.meshParent = types.SimpleNamespace(regions={1: types.SimpleNamespace(contours=below), 2: types.SimpleNamespace(contours=above)})
+        r.meshParent = types.SimpleNamespace(regions={1: r if own_neighbour else types.SimpleNamespace(contours=below), 2: r if own_neighbour else types.SimpleNamespace(contours=above)})
         r.equilibriumRegion.psi = None
         with patched((M, "print", lambda *a, **k: None), (M.warnings, "warn", lambda *a, **k: None)):
             hy = M.MeshRegion.calcHy(r)
@@ -246,6 +248,7 @@ def add_hy(S):
     for lo in (False, True):
         for up in (False, True):
             S.contract("calcHy[lower=%s,upper=%s]" % (lo, up), FN_HY, make_hy_run(lo, up), expected_exceptions=(ValueError,), shape="nx=1, ny=2, distances strictly increasing (get_distance's guarantee): never raises", max_paths=3000)
+    S.contract("calcHy[the region is its own y-neighbour]", FN_HY, make_hy_run(True, True, own_neighbour=True), expected_exceptions=(ValueError,), shape="nx=1, ny=2, periodic in y", max_paths=3000)
     S.contract("calcHy[guard]", FN_HY, make_hy_run(False, False, increasing=False), expected_exceptions=(ValueError,), raises_ok=hy_raise_ok, shape="nx=1, ny=2, arbitrary distances: hy>0 or ValueError", max_paths=3000)
 
 
@@ -259,6 +262,7 @@ def build(S):
 
         for per, st in ((False, 0), (True, 0), (False, 2)):
             S.contract("calcPoloidalDistance[two-region chain,periodic=%s,startInd=%d]" % (per, st), FN_PD, chainkit.run_poloidal_distance(per, st), shape="two regions, nx=1")
+        S.contract("calcPoloidalDistance[one region, its own y-neighbour]", FN_PD, chainkit.run_poloidal_distance(True, 0, single=True), shape="one periodic region (single-null core), nx=1")
         try:
             S.contract("get_distance[guard]", "hypnotoad.core.equilibrium:PsiContour.get_distance", run_get_distance, expected_exceptions=(ValueError,), raises_ok=dist_raise_ok, shape="4 points")
         except Exception as e:  # pragma: no cover
